@@ -48,13 +48,13 @@ STUB = ['application shell that keeps and saves the viewer list (modelled on glu
 ASSUMPTIONS = ['a user may remove a dataset\'s own layer alone (its subset layers then stay until the subsets disappear); subset layers are not removed one by one', 'oracle only at quiescence', 'sampling, not proof']
 PROBES = ['viewer_before_data', 'subset_created_after_add', 'group_removed_with_viewer', 'data_removed_with_viewer', 'viewer_dropped_unclosed',
           'viewer_closed', 'picker_filter_flip', 'picker_no_choices', 'picker_component_removed', 'picker_data_removed', 'image_axis_set',
-          'image_reference_changed', 'image_reference_removed', 'restart_with_viewers', 'readd_in_delay_window', 'mpl_viewer', 'explicit_selection', 'data_layer_removed_alone', 'identifier_rebound_to_other_kind', 'image_subset_layer', 'profile_layer_added', 'profile_state_emptied', 'viewer_given_removed_dataset']
+          'image_reference_changed', 'image_reference_removed', 'restart_with_viewers', 'readd_in_delay_window', 'mpl_viewer', 'explicit_selection', 'data_layer_removed_alone', 'identifier_rebound_to_other_kind', 'image_subset_layer', 'profile_layer_added', 'profile_state_emptied', 'viewer_given_removed_dataset', 'picker_datasets_replaced_in_one_call']
 
 PROBES_THOROUGH_ONLY = ['mpl_viewer']
 
 WEIGHTS = {'new': 2, 'append': 3, 'remove': 1.5, 'new_group': 2.5, 'remove_group': 1.5, 'add_comp': 1.5, 'add_derived': 1, 'remove_comp': 1, 'rebind_comp': 0.8,
            'rename': 0.7, 'reorder': 0.5, 'label': 0.5, 'v_new': 2, 'v_add': 4, 'v_add_gone': 0.8, 'v_add_subset': 1, 'v_remove': 1, 'v_remove_data_layer': 1, 'v_close': 0.5, 'v_drop': 0.5,
-           'h_new': 2, 'h_append': 3, 'h_remove': 1, 'h_filter': 2, 'h_select': 1.5, 'h_drop': 0.4, 'i_new': 1, 'i_add': 2, 'i_add_subset': 1, 'i_remove': 0.7, 'p_new': 0.6, 'p_add': 1.5, 'p_remove': 1,
+           'h_new': 2, 'h_append': 3, 'h_remove': 1, 'h_set_multiple': 2.5, 'h_filter': 2, 'h_select': 1.5, 'h_drop': 0.4, 'i_new': 1, 'i_add': 2, 'i_add_subset': 1, 'i_remove': 0.7, 'p_new': 0.6, 'p_add': 1.5, 'p_remove': 1,
            'i_set': 4, 'delay_open': 1, 'delay_close': 1.5, 'collect': 0.5, 'restart': 0.4}
 FLAGS = ['numeric', 'categorical', 'pixel_coord', 'world_coord', 'derived', 'none']
 
@@ -126,6 +126,8 @@ def generate(rng, cfg, guards):
         elif k == 'h_new':
             ops.append([k, rng.pick(['cid', 'cid', 'cid', 'manual', 'dc']), [rng.chance(0.7), rng.chance(0.7), rng.chance(0.3), rng.chance(0.3), rng.chance(0.7), rng.chance(0.2)],
                         rng.chance(0.8)])
+        elif k == 'h_set_multiple':
+            ops.append([k, r8(), rng.randrange(1, 64)])
         elif k in ('h_append', 'h_remove'):
             ops.append([k, r8(), r8()])
         elif k == 'h_filter':
@@ -532,6 +534,23 @@ def _execute(case, res, tmp):
                 d = h['data'][op[2] % len(h['data'])]
                 h['h'].remove_data(d)
                 h['data'] = [g for g in h['data'] if g is not d]
+            elif k == 'h_set_multiple':
+                # the whole list of datasets replaced in one call (what a viewer state does when several layers leave at once)
+                hs = [h for h in helpers if h['kind'] != 'dc' and len(h['data']) >= 2]
+                if not hs:
+                    continue
+                h = hs[op[1] % len(hs)]
+                keep = [d for i, d in enumerate(h['data']) if not (op[2] >> i) & 1]
+                if len(keep) == len(h['data']):
+                    keep = keep[:-2]        # two neighbours leave
+                try:
+                    h['h'].set_multiple_data(keep)
+                except Exception as e:
+                    if 'Cannot change data' in str(e):
+                        continue
+                    raise
+                h['data'] = keep
+                res.probe('picker_datasets_replaced_in_one_call')
             elif k == 'h_filter':
                 hs = [h for h in helpers if h['kind'] == 'cid']
                 if not hs:
